@@ -30,7 +30,10 @@ def confirm(wt, sid, prop, features="", pkg="vaporetto", extra_cmd=None):
     out = os.path.join(wt, "OUT")
     meta = json.load(open(os.path.join(out, "meta.json")))
     demo = [f for f in os.listdir(out) if f.endswith(".rs")]
-    assert demo, "no demo .rs file"
+    scripts = [f for f in os.listdir(out) if f.endswith(".sh")]
+    if not demo and scripts:
+        extra_cmd = extra_cmd or "CARGO_TARGET_DIR=<wt>/target bash OUT/%s" % scripts[0]
+    assert demo or scripts, "no demo .rs / .sh file"
     sh("git checkout -- . && git clean -fdq -e OUT -e target", cwd=wt)
     rc, o = sh("git apply --check OUT/patch.diff", cwd=wt)
     assert rc == 0, "patch does not apply: " + o
@@ -38,7 +41,7 @@ def confirm(wt, sid, prop, features="", pkg="vaporetto", extra_cmd=None):
     os.makedirs(tdir, exist_ok=True)
     for d in demo:
         shutil.copy(os.path.join(out, d), os.path.join(tdir, d))
-    name = demo[0][:-3]
+    name = demo[0][:-3] if demo else "none"
     feat = ("--features " + features) if features else ""
     cmd = "CARGO_TARGET_DIR=%s/target cargo test -p %s %s --test %s --offline" % (wt, pkg, feat, name)
     if extra_cmd:
@@ -59,9 +62,9 @@ def confirm(wt, sid, prop, features="", pkg="vaporetto", extra_cmd=None):
     d = os.path.join(SEEDED, sid)
     os.makedirs(d, exist_ok=True)
     shutil.copy(os.path.join(out, "patch.diff"), os.path.join(d, "patch.diff"))
-    for f in demo:
+    for f in demo + scripts:
         shutil.copy(os.path.join(out, f), os.path.join(d, f))
-    fails = [l for l in o1.splitlines() if "panicked" in l or "FAILED" in l or "assertion" in l][:6]
+    fails = [l for l in o1.splitlines() if "panicked" in l or "FAIL" in l or "assertion" in l][:6]
     json.dump({
         "id": sid, "property": prop,
         "summary": meta.get("summary"), "needs_to_manifest": meta.get("needs"),
